@@ -226,6 +226,17 @@ def oracle_model(getter, rng, tier_quick, notes):
             c1 = IFORMContour(tm, al, n_points=npts)
             c2 = IFORMContour(tm, al, n_points=npts)
         k1, k2 = np.asarray(c1.coordinates), np.asarray(c2.coordinates)
+        # ... and whatever was evaluated on the (identically seeded) model object before: here the cached-sample paths
+        tm_h, _ = make_tm(getter)
+        with warnings.catch_warnings():
+            warnings.simplefilter("ignore")
+            tm_h.empirical_cdf(np.array([[2.0, 6.0]]))
+            _ = tm_h.sample
+            k3 = np.asarray(IFORMContour(tm_h, al, n_points=npts).coordinates)
+        if not np.array_equal(k1, k3):
+            return ({"clause": "seed", "getter": getter, "what": "IFORMContour-after-history"},
+                    "IFORMContour of a model with random_state=%r is %r on a fresh object but %r on an identically seeded object on which empirical_cdf / .sample were used before"
+                    % (tm.random_state, k1[0].tolist(), k3[0].tolist()))
         if not np.array_equal(k1, k2):
             bad = [j for j in range(2) if not np.array_equal(k1[:, j], k2[:, j])]
             return ({"clause": "seed", "getter": getter, "what": "IFORMContour"},
